@@ -352,7 +352,13 @@ def r_ptb(repo, rep, writer_only=False, RT='R20.6', RE='R20.5'):
             detail = 'final assertion / RuntimeError handler / category container not found'
     rep.check(okc, 'R20.4', wr, '_parse_ptb:complete', 'an incomplete line is rejected: the final check covers the container(s) holding opened categories and requires a single result (%s)' % detail,
               'an incomplete line can yield a partial tree: %s' % detail)
-    red = rm.get('_parse_ptb.reduce')
+    # the two closures of the reader by what they do: one makes the tokens, the other opens nodes (Category.parse)
+    inner_ = [n for n in ast.walk(pp) if isinstance(n, (ast.FunctionDef, ast.AsyncFunctionDef)) and n is not pp]
+    by_call = lambda what: [n for n in inner_ if any(isinstance(x, ast.Call) and src(x.func) == what for x in ast.walk(n))]
+    red_c, rec_c = by_call('Token'), by_call('Category.parse')
+    if not (len(red_c) == 1 and len(rec_c) == 1 and red_c[0] is not rec_c[0]):
+        red_c, rec_c = [rm.get('_parse_ptb.reduce')], [rm.get('_parse_ptb.rec')]
+    red = red_c[0]
     it = red.args.args[0].arg
     inv_ok = False
     detail = ''
@@ -370,7 +376,7 @@ def r_ptb(repo, rep, writer_only=False, RT='R20.6', RE='R20.5'):
                       'the token holds %s but the leaf is built from %s' % (show(wt)[:50], show(pushed[0])[:50] if pushed else None))
     rep.check(inv_ok, 'R20.5', wr, '_parse_ptb:unescape', 'the reader applies the inverse of the writer\'s bracket escaping (%s)' % detail,
               'the reader does not invert the writer\'s escaping: %s' % detail)
-    rc_ = rm.get('_parse_ptb.rec')
+    rc_ = rec_c[0]
     opened = False
     for st, o in SymExec(rc_, unroll=1).run():
         for c, pol, _ in st.conds:
